@@ -162,5 +162,6 @@ specialise(
     bounds="a select_one with a search() appearance dumped after the XForm was generated; expected to reproduce known finding F18",
     weight=20,
     expect="known",
+    reach=False,
     classifier=lambda call, replay: "F18" if (replay.get("exception") or {}).get("type") in ("KeyError", "PyXFormError", "TypeError") else None,
 )
